@@ -11,7 +11,7 @@ RULE = ('a scenario catalogue drives one endpoint (both roles) into every state 
         'DELETE child, error NOTIFY (and a sweep over 34 notification types at the expected Message ID), unassigned / unimplemented payload kinds with and without the CRITICAL bit, the payloads an authentic message would carry); every truncation, an extra outer payload (critical or not) spliced in front of the SK payload, bit flips (quick: 3 bit positions per '
         'octet) and extensions of the last authentic datagram it received and of the authentic datagram in flight towards it; messages protected with OTHER keys; its own last message reflected. '
         'The reference classifies every injected datagram (authentic iff last payload SK and ICV verifies under the peer-direction key). '
-        'Every fifth forgery claims another source address than the peer\'s. For every non-authentic one: full snapshot of every IKE_SA (state, both counters, both addresses, CHILD_SAs, DPD deadline, retransmission fields, '
+        'A multi-homed victim (IPv4 + IPv6, one IKE_SA on each) also gets ONE loop turn in which an authentic request is ready on one socket and a forgery on the other (both orders; unread datagrams stay in their socket for the next turn): every datagram emitted goes to the authentic peer. Every fifth forgery claims another source address than the peer\'s. For every non-authentic one: full snapshot of every IKE_SA (state, both counters, both addresses, CHILD_SAs, DPD deadline, retransmission fields, '
         'cached response, pending events, successor) equal before/after, no netlink request, SAD unchanged, and no reply other than the '
         'byte-identical IKE_SA_INIT response to a retransmitted IKE_SA_INIT request. distinct = (role, state, forgery class, exchange, id offset, outcome).')
 ASSUMPTIONS = ['an IKE_SA_INIT *request* legitimately creates a new half-open responder object at the controller level; it must leave every existing IKE_SA untouched',
@@ -304,8 +304,98 @@ def forge_all(ck, inj, rng, thorough):
                 inj.inject('reflection.sealed-with-victims-own-keys', d, (exch, resp))
 
 
+def same_turn(ck, base):
+    """A multi-homed victim (IPv4 and IPv6 address, one IKE_SA on each): ONE loop turn finds an authentic request ready on one socket and a forgery on the
+    other. The forgery must elicit nothing: every datagram the turn emits goes to the authentic peer, from the socket it came in on."""
+    ca4, cb4 = S.pair_conf(dpd=600, lifetime=3600)
+    ca6, cb6 = S.pair_conf(v6=True, dpd=600, lifetime=3600, index_a=3, index_b=4)
+    n = 0
+    for order in (0, 1, 0, 1) if not ck.thorough() else (0, 1) * 20:
+        for fkind in ('cleartext-delete-with-the-spis', 'bitflip-of-an-authentic-datagram', 'other-keys', 'garbage', 'reflected-own-message'):
+            for fsrc in ('peer-address', 'foreign-address'):
+                n += 1
+                if not ck.mine(n):
+                    continue
+                sim = S.Sim(base + 4242 + n)
+                a = sim.add('A', [S.A4, S.A6], {'c4': ca4['conn'], 'c6': ca6['conn']})
+                b = sim.add('B', [S.B4, S.B6], {'c4': cb4['conn'], 'c6': cb6['conn']})
+                sim.case = {'family': 'same-turn', 'order': order, 'forgery': fkind, 'from': fsrc}
+                sim.acquire(a, 0)
+                sim.drain()
+                sim.acquire(a, 1)
+                sim.drain()
+                sas = {str(x.my_addr): x for x in a.ctl.ike_sas if x.state == State.ESTABLISHED}
+                if len(sas) != 2:
+                    ck.count('same_turn.setup_failed')
+                    continue
+                auth_addr, forg_addr = ((S.A4, S.A6), (S.A6, S.A4))[order]
+                peer_of = {S.A4: S.B4, S.A6: S.B6}
+                # the authentic request: the peer's DPD probe on the IKE_SA of `auth_addr`
+                bsa = next(x for x in b.ctl.ike_sas if str(x.my_addr) == peer_of[auth_addr])
+                bsa.start_dpd_at = sim.clock.t - 1
+                b.step('tick')
+                probe = next((d for d in sim.net if d.dst == auth_addr), None)
+                if probe is None:
+                    ck.count('same_turn.no_probe')
+                    continue
+                sim.net.remove(probe)
+                vsa = sas[forg_addr]
+                rng = ck.rng('same-turn', n)
+                earlier = [w[3] for w in sim.wire if w[2] == forg_addr and w[3][18] != 34]
+                mine = [w[3] for w in sim.wire if w[1] == forg_addr and w[3][18] != 34]
+                hdr = {'spi_i': bytes(vsa.spi_i), 'spi_r': bytes(vsa.spi_r), 'major': 2, 'minor': 0, 'exch': 37, 'mid': vsa.peer_msg_id, 'flags': 0 if vsa.is_initiator else 0x08}
+                if fkind == 'cleartext-delete-with-the-spis':
+                    forged = codec.encode_clear(dict(hdr, payloads=[{'type': 42, 'critical': False, 'proto': 1, 'spis': []}]))
+                elif fkind == 'bitflip-of-an-authentic-datagram':
+                    bb = bytearray(earlier[-1])
+                    bb[rng.randrange(28, len(bb))] ^= 0x10
+                    forged = bytes(bb)
+                elif fkind == 'other-keys':
+                    forged = ikecrypto.sk_seal(hdr, [], 12, gen.rb(rng, 32), gen.rb(rng, 32), gen.rb(rng, 16))
+                elif fkind == 'garbage':
+                    forged = gen.rb(rng, 60)
+                else:
+                    forged = mine[-1]
+                fs = peer_of[forg_addr] if fsrc == 'peer-address' else ('2001:db8:66::66' if ':' in forg_addr else '198.51.100.66')
+                keys = observe.crypto_keys(vsa.peer_crypto)
+                if ikecrypto.sk_verify(forged, keys[0], keys[1]):
+                    continue
+                before = full_snapshot(a)
+                sim.clock.advance(0.0001)
+                a.keep_unread = True
+                rec = a.step('multi', udp=[(probe.src, probe.dst, probe.data), (fs, forg_addr, forged)])
+                # a turn that raised while serving the first socket has not read the second one yet: it is still waiting there on the next turn(s)
+                extra = 0
+                while a.unread_after_step and extra < 3 and not rec.died:
+                    extra += 1
+                    r2 = a.step('tick')
+                    rec.sent = list(rec.sent) + list(r2.sent)
+                    rec.died, rec.exc = r2.died, r2.exc
+                a.keep_unread = False
+                ck.count('same_turn.turns')
+                if extra:
+                    ck.count('same_turn.turns_that_needed_a_second_turn')
+                ck.nontrivial(('same-turn', order, fkind, fsrc))
+                bad = [(s_, d_) for (s_, d_, _x) in rec.sent if not (s_ == auth_addr and d_ == probe.src)]
+                if rec.died:
+                    ck.violation(f'loop-died:{type(rec.exc).__name__}:same-turn', {'exc': repr(rec.exc)[:120]}, sim.case)
+                elif bad:
+                    ck.violation(f'forgery-served-in-the-same-loop-turn-as-an-authentic-request-elicited-a-datagram:{fkind}', {'sent': bad, 'all_sent': len(rec.sent)}, sim.case)
+                elif not any(s_ == auth_addr for (s_, d_, _x) in rec.sent):
+                    ck.violation('authentic-request-served-in-the-same-turn-as-a-forgery-got-no-response', {}, sim.case)
+                else:
+                    ck.count('same_turn.only_the_authentic_request_answered')
+                after = full_snapshot(a)
+                ch = [f for f in diff_snap(before, after) if not (id(sas[auth_addr]) in before and f in ('dpd', 'peer_msg_id', 'last_resp'))]
+                vb, va = before[id(vsa)], after.get(id(vsa))
+                if va is None or any(vb[f] != va[f] for f in vb):
+                    ck.violation(f'unauthentic-message-changed-the-ike-sa:same-turn:{fkind}', {'fields': [f for f in vb if va is None or vb[f] != va[f]]}, sim.case)
+                sim.net.clear()
+
+
 def run(ck):
     base = ck.seed * 1000003 + 31
+    same_turn(ck, base)
     thorough = ck.thorough()
     vias = ['loop', 'dispatch', 'sa']
     confs = [{}, dict(ike_a={'encr': ['aes128'], 'integ': ['sha1'], 'prf': ['sha1'], 'dh': ['19']}, ipsec_proto='ah'),
@@ -360,6 +450,7 @@ def run(ck):
 def verdict(ck):
     c = ck.counters
     ck.floor('injections judged', c['inject.loop'] + c['inject.dispatch'] + c['inject.sa'], 20000)
+    ck.floor('loop turns with an authentic request and a forgery ready on two sockets, only the request answered', c['same_turn.only_the_authentic_request_answered'], 30)
     ck.floor('keyed states reached', len(ck.sets['states']), len(CATALOGUE))
     ck.floor('authentic controls accepted', c['control.authentic_accepted'], 10)
     classes = {k.split('.')[1] for k in c if k.startswith('forgery.')}
